@@ -51,7 +51,10 @@ TRUSTED = [
     'cancels a variable while building the object the model receives the tree sympy holds, value-checked against the '
     'source expression); recursive_substitution (evaluate_symbolic) preserves values',
     'frozendict behaves as an immutable dict',
-    'harness: generators, scope builder, sym_to_json, exact number conversion (as_integer_ratio), Gallina printers',
+    'harness: generators, scope builder, sym_to_json, exact number conversion (as_integer_ratio), Gallina printers; '
+    'exactness filter for divisions (divisor values +-2^k, evaluated on the tree sympy holds, environments as the '
+    'implementation evaluates them) and, only for cases with a division by an expression, replacement of a case whose '
+    'observation contains a rounded float by the empty history (counted as dropped:inexact-float-division)',
 ]
 ASSUMPTIONS = [
     'expressions are restricted to + - x, division (by a constant or by an expression; a divisor of value 0 = the scope '
@@ -68,8 +71,9 @@ ASSUMPTIONS = [
     'and observed on the implementation in every change / == operation (incl. permuted and retyped twins)',
     'Expression.__eq__ of the code is structural in sympy (Expression(1) != Expression(1.0)); the model compares '
     'constants by value; scopes whose mapping constants differ only in number type are never compared',
-    'the heap theorem covers histories of queries on one object graph; change_constants / overwrite (which allocate new '
-    'objects) are covered through "every valid store", not by an allocator model',
+    'the explicit heap (shared objects, allocation on change_constants / overwrite) is proved observationally equal to '
+    'the tree model; it is not itself run against the implementation (object identities of returned scopes are not '
+    'observed)',
 ]
 
 NAMES = ['p%d' % i for i in range(8)]
@@ -186,7 +190,7 @@ def s_denote(s):
             return None
         out = dict(d)
         for k, e in s['m']:
-            v = e_eval(e, d)
+            v = e_eval(canon(e), d)
             if v is None:
                 return None
             out[k] = v
@@ -490,7 +494,7 @@ def s_partial(s):
         d = s_partial(s['o'])
         out = {k: v for k, v in d.items() if k not in {n for n, _ in s['m']}}
         for k, e in s['m']:
-            v = e_eval(e, d)
+            v = e_eval(canon(e), d)      # the tree sympy holds: 0*x + y or (x*y)/x have a value where x has none / is 0
             if v is not None:
                 out[k] = v
         return out
@@ -510,9 +514,9 @@ def bounded(s):
     """within the exactness bounds, and every expression has a tree the model can receive (sympy turns e.g. x / (y - y)
     into zoo*x or nan when the expression object is built: such stacks are discarded)"""
     try:
-        s_partial(s)
         for e in s_exprs(s):
             canon(e)
+        s_partial(s)
         return True
     except (OverflowError, ValueError, RuntimeError):
         return False
@@ -644,6 +648,8 @@ def rnd_ops(rng, s, n_ops):
                 continue
             ops.append(['change', sorted(nc.items())])
             cur = nxt
+            if rng.random() < 0.2:
+                ops.append(['change', sorted(nc.items())])       # the same call again, on the result (idempotent)
         elif r < 0.955:
             # Scope.overwrite: a volatile name / some name of the scope / any name, 1-2 of them, constants of every type
             vol = sorted({n for rt in s_roots(cur) for n in rt['vol']})
@@ -653,6 +659,8 @@ def rnd_ops(rng, s, n_ops):
                 names.append(rng.choice(vol) if q < 0.4 and vol else rng.choice(dom) if q < 0.7 and dom
                              else rng.choice(NAMES[:7]))
             kv = [[n, rnd_tagged(rng)] for n in sorted(set(names))]
+            if rng.random() < 0.06:
+                kv = []                                            # overwrite({}) : an empty mapping layer
             nxt = s_overwrite(cur, kv)
             if s_depth(nxt) > 9:
                 continue
@@ -673,26 +681,46 @@ def merged_roots(s):
     return env
 
 
+def roots_agree(s):
+    """all DictScope roots give a shared name the same value and the same volatility"""
+    seen = {}
+    for rt in s_roots(s):
+        for k, v in rt['vals']:
+            x = (V(v), k in rt['vol'])
+            if seen.setdefault(k, x) != x:
+                return False
+    return True
+
+
 def rnd_envs(rng, cur):
     """environments of constants in which the dependency expressions are evaluated: the current constants, then the
     current constants with some volatile constants changed (occasionally also a non-volatile one / a missing name)"""
     base = merged_roots(cur)
+    if not roots_agree(cur) and any('div' in e_ops(e) for e in s_exprs(cur)):
+        # one name stands for two constants (or is volatile in one root only): a dependency expression is then evaluated
+        # with values no rebuilt scope has, and a divisor expression may leave the exactness bounds unnoticed: keys only
+        return []
     vol = sorted({n for rt in s_roots(cur) for n in rt['vol']})
-    envs = [dict(base)]
+    # (roots of a joint scope may disagree on a name: read as a change, the merged constants rewrite the other root, so
+    # the base environment has to pass the exactness bounds like every other one)
+    envs = [dict(base)] if bounded(s_rebuild(cur, base)) else []
     for _ in range(rng.choice([1, 2, 2, 3])):
         env = dict(base)
         names = [n for n in vol if rng.random() < 0.7] or vol[:1]
         if rng.random() < 0.08 and base:
             names = names + [rng.choice(sorted(base))]
         nc = {n: rnd_tagged(rng) for n in names}
-        try:
-            if not bounded(s_rebuild(cur, nc)):
-                continue
-        except Exception:
-            continue
         env.update(nc)
         if rng.random() < 0.05 and env:
             env.pop(rng.choice(sorted(env)))
+        try:
+            # the WHOLE environment is what the dependency expressions are evaluated in (when roots disagree on a name
+            # the merged constants differ from the constants of some root, also for names that were not changed)
+            # ... restricted to the volatile names: a dependency expression holds the CURRENT value of every other constant
+            if not bounded(s_rebuild(cur, {n: v for n, v in env.items() if n in vol})):
+                continue
+        except Exception:
+            continue
         envs.append(env)
     return [sorted(e.items()) for e in envs]
 
@@ -767,7 +795,8 @@ def fam_history(s):
     env2 = sorted(dict(base, **{n: zeros[i % 3] for i, n in enumerate(vol)}).items())
     env3 = sorted(dict(base, **{vol[-1]: '6@t'}).items())
     ops = [['volx', [env0, env1, env2, env3]], ['vol']]
-    ops += [['get', n] for n in ('p0', 'p2', 'p5')] + [['in', 'p5'], ['len'], ['iter'], ['as_dict'], ['get', 'p1'],
+    ops += [['get', n] for n in ('p0', 'p2', 'p5')] + [['in', 'p5'], ['in', 'p2'], ['in', 'p0'], ['len'], ['iter'],
+                                                      ['as_dict'], ['get', 'p1'],
                                                       ['get', 'p3'], ['keys'], ['items'], ['vol']]
     cur = s
     c1 = [[vol[0], '0']]                                         # a proper subset when there are several volatile constants
@@ -879,6 +908,14 @@ def gen_cases(rng, tier, ctx):
     cases.append({'kind': 'hist', 'scope': jw, 'src': 'fixed',
                   'ops': [['vol'], ['get', 'p2'], ['as_dict'], ['change', [['p0', '5']]], ['vol'], ['get', 'p2'],
                           ['as_dict'], ['len'], ['iter'], ['items']]})
+    # "given as empty" vs "not given": empty overwrite / empty change on a scope with volatile parameters, the same
+    # change_constants call twice, change_constants with the current values
+    cases.append({'kind': 'hist', 'scope': {'t': 'mapped', 'o': da, 'm': [['p2', ['+', ['v', 'p0'], ['v', 'p1']]]]},
+                  'src': 'fixed',
+                  'ops': [['overwrite', []], ['vol'], ['volx', [[['p0', '1'], ['p1', '2']], [['p0', '0@t'], ['p1', '2']]]],
+                          ['as_dict'], ['change', []], ['vol'], ['change', [['p0', '0']]], ['change', [['p0', '0']]],
+                          ['as_dict'], ['vol'], ['change', [['p0', '0@f'], ['p1', '2']]], ['as_dict'], ['vol'],
+                          ['overwrite', []], ['overwrite', [['p0', '0']]], ['vol'], ['as_dict'], ['len'], ['iter']]})
     for _ in range(900 * n):
         malformed = rng.random() < 0.15
         layers = rng.choice([0, 1, 1, 2, 2, 3, 3, 4, 5, 6])
@@ -1194,9 +1231,37 @@ def g_obs(op, o):
     raise ValueError(k)
 
 
+def has_div(case):
+    return any('div' in e_ops(e) for e in s_exprs(case['scope'])) or \
+        any('div' in e_ops(e) for op in case['ops'] if op[0] == 'eq' for e in s_exprs(op[1]))
+
+
+def obs_inexact(obs):
+    """some observed number is a binary fraction with a huge denominator, i.e. the result of a ROUNDED floating point
+    operation (every exact result of a generated case has a denominator <= MAXDEN)"""
+    def walk(x):
+        if isinstance(x, str):
+            return '/' in x and F(x).denominator > MAXDEN
+        if isinstance(x, (list, tuple)):
+            return any(walk(y) for y in x)
+        if isinstance(x, dict):
+            return any(walk(y) for k, y in x.items() if k == 'ok')
+        return False
+    return any(walk(o) for o in obs.get('obs', []))
+
+
+def dropped_inexact(case, obs):
+    """second line of defence behind the generator's exactness filter, ONLY for cases with a division by an expression: if
+    the implementation's floating point division rounded, the case cannot be compared exactly and is replaced by the
+    empty history (counted in the histogram as 'dropped:inexact-float-division')"""
+    return has_div(case) and obs_inexact(obs)
+
+
 def to_coq(case, obs):
     if 'obs' not in obs:
         return 'CCrash'
+    if dropped_inexact(case, obs):
+        return '(CHist %s [] [])' % g_scope(case['scope'])
     try:
         return '(CHist %s %s %s)' % (g_scope(case['scope']), g_list(g_op(op) for op in case['ops']),
                                      g_list(g_obs(op, o) for op, o in zip(case['ops'], obs['obs'])))
@@ -1207,7 +1272,7 @@ def to_coq(case, obs):
 # ---------------------------------------------------------------------------------------------------------------------
 def nontrivial(case, obs):
     s = case['scope']
-    return s_depth(s) >= 2 and len(s_kinds(s)) >= 2
+    return s_depth(s) >= 2 and len(s_kinds(s)) >= 2 and not dropped_inexact(case, obs)
 
 
 def histogram_keys(case, obs):
@@ -1235,6 +1300,8 @@ def histogram_keys(case, obs):
             pass
         if len(e_vars(ex)) != len(set(e_vars(ex))):
             keys.append('expr:variable-repeated')
+    if dropped_inexact(case, obs):
+        keys.append('dropped:inexact-float-division')
     if 'obs' in obs:
         for op, o in zip(case['ops'], obs['obs']):
             if 'err' in o:
@@ -1313,13 +1380,14 @@ MANIFEST = {
                   'equal to rebuilding (also in hash), to have an __eq__ that is an equivalence and implies equal __hash__ '
                   '(for every admissible leaf hash / order-independent frozenset combiner, CPython\'s included), to make '
                   'Scope.overwrite set exactly the given names to non-volatile constants, and - on an explicit heap in '
-                  'which joint-scope entries are shared objects with one set of memoisation fields - to answer every '
-                  'history of queries as the cache-free paths do; the model is tied to the code by an '
+                  'which joint-scope entries are shared objects with one set of memoisation fields and change_constants / '
+                  'overwrite allocate new objects - to answer every history as the cache-free paths do; the model is tied '
+                  'to the code by an '
                   'exact correspondence check of operation histories on one object graph.',
     'level_note': 'Trusted: Coq kernel, sympy evaluation/substitution of + - x / Min Max on small dyadic rationals '
                   '(divisors +-2^k), frozendict, harness. Dependence is syntactic (over-approximation proved); concrete hash '
                   'values, sympy-structural Expression equality (number types of constants) and cross-class scope '
-                  'equality are not modelled; change_constants / overwrite are not run on the explicit heap.',
+                  'equality are not modelled; the heap model is proved equal to the tree model, not run against the code.',
     'technique': 'Coq proof (induction over the scope stack, cache-refinement invariant on tree and heap, substitution '
                  'lemma, permutation argument for hashes) + '
                  'correspondence check',
